@@ -4,6 +4,8 @@ package main
 
 import (
 	"flag"
+	"io"
+	"log"
 	"fmt"
 	"os"
 	"strings"
@@ -22,6 +24,7 @@ func main() {
 	only := flag.String("only", "", "run only the case with this name (replay)")
 	dnsChild := flag.Bool("dns-child", false, "internal: DNS decode child process")
 	flag.Parse()
+	log.SetOutput(io.Discard)
 	if *dnsChild {
 		props.DNSChildMain()
 		return
